@@ -13,6 +13,9 @@ CHECKS = {
    text='Every harness is a CrossHair condition over symbolic version components (unbounded ints, 1-3 groups, symbolic suffix): z3 decides each path; "confirmed" = all paths exhausted within the stated bounds, otherwise reported as explored-without-counterexample. Bounded model checking of the real Version code, not a proof.',
    note='Trusts CrossHair 0.0.110 models of int/str/tuple/re and z3; Version objects are built field-wise as the constructor leaves them; reference order written from the module docstring; hash checked by realised values.', ref='5 C18'),
 }
+CHECKS['C20'] = dict(engine='E1-crosshair', technique='bounded symbolic execution with SMT (CrossHair/z3): op(Quantity(v,u),x) vs op(v,x) per operator and operand form; replay',
+   text='One CrossHair condition per (operator found on the live Qty class, operand form Q.n / n.Q / Q.Q); int and bool operands are symbolic z3 terms (unbounded, or small ranges concretised per value for mul/div/mod/pow/shift/bitwise), floats come from a concrete catalogue of special values selected by symbolic index. Result and exception class are compared with the plain-number computation. "confirmed" = all paths exhausted.',
+   note='Trusts CrossHair/z3 and CPython number semantics on the right-hand side of the comparison; MODE_PINT off; float rounding is not decided by the solver.', ref='5 C20')
 NA_REASON = {}
 
 def main():
